@@ -2,5 +2,6 @@
 package all
 
 import (
+	_ "verif/sim/world/broker"
 	_ "verif/sim/world/ring"
 )
